@@ -758,6 +758,7 @@ func c13GenScenario(s *verifh.Session, flow, feature string) *c13Scenario {
 }
 
 type c13RunOut struct {
+	cl       *Client
 	res      c13Result
 	attempts []c13Attempt
 	log      *c13Log
@@ -805,10 +806,7 @@ func c13RunH1(peer *c13Peer, sc *c13Scenario, cfg *c13DumpCfg, viaSet bool, time
 	}
 	resp, err := rq.Send(sc.method, url)
 	out.res = c13ResultOf(resp, err)
-	c13Flush(cl)
-	if cl.Dump != nil {
-		cl.DisableDumpAll()
-	}
+	out.cl = cl // flushed and stopped at judge time: the write loop may still be dumping its last piece
 	cl.CloseIdleConnections()
 	peer.waitIdle()
 	out.attempts = peer.reset()
@@ -851,6 +849,7 @@ type c13Pending struct {
 	tokens           map[string]string // token -> bytes
 	seqOf            map[string]int    // token -> dumping goroutine: 0 request writer, 1 response head reader, 2 body reader
 	log              *c13Log
+	cl               *Client      // the dump-on client: its async queue is flushed before judging
 	outputs          map[int]bool // writer ids that are an Output() (separators allowed)
 	nontrivial       bool
 }
@@ -964,7 +963,7 @@ func TestVerif_C13_e2eh1(t *testing.T) {
 		on, hung := c13Guard(timeout+margin, func() c13RunOut { return c13RunH1(peer, sc, &cfg, viaSet, timeout) })
 		p := &c13Pending{
 			id:    fmt.Sprintf("h1 #%d %s %s %s", c, sc.name, cfg.String(), sc.method),
-			class: sc.class, log: on.log, tokens: map[string]string{}, seqOf: map[string]int{},
+			class: sc.class, log: on.log, cl: on.cl, tokens: map[string]string{}, seqOf: map[string]int{},
 			outputs: map[int]bool{10: true, 20: true}, nontrivial: true,
 		}
 		p.human = fmt.Sprintf("%s %s body=%dB via %q; %s; result %s", sc.method, sc.name, len(sc.body), sc.bodyVia, cfg.String(), c13Clip(off.res.String(), 160))
@@ -1049,6 +1048,15 @@ func c13Finish(t *testing.T, s *verifh.Session, pend []*c13Pending) {
 	answers, err := verifh.RunModel(lines)
 	if err != nil {
 		t.Fatalf("model: %v", err)
+	}
+	time.Sleep(20 * time.Millisecond) // let write loops finish dumping the last piece they sent
+	for _, p := range pend {
+		if p.cl != nil {
+			c13Flush(p.cl)
+			if p.cl.Dump != nil {
+				p.cl.DisableDumpAll()
+			}
+		}
 	}
 	for i, p := range pend {
 		if answers[i] == "bad-op" {
